@@ -38,9 +38,32 @@ structure Laws where
     StartsOpener (startTok (lowerName d) d a).raw
   other_closed : ∀ x, OtherOK x → Closed x [⟨.other, x, []⟩] ∧ StartsOpener x
 
-/-- how the tokenizer sees a verbatim piece of a `Simple` document: a comment / declaration (it holds a `<`) is one
-token of kind `other`, a text one text token -/
-def vtU (raw : Bytes) : List Tok := if raw.contains 60 then [⟨.other, raw, []⟩] else textToks raw
+/-- how the tokenizer sees a verbatim piece of a `Simple` document: a comment / declaration / processing instruction (it
+starts with `<` + `!` / `?`; in general: `<` + a byte that opens something) is one token of kind `other`, a text one text
+token -/
+def vtU (raw : Bytes) : List Tok := if startsOpenerB raw then [⟨.other, raw, []⟩] else textToks raw
+
+theorem startsOpenerB_of {y : Bytes} (h : StartsOpener y) : startsOpenerB y = true := by
+  obtain ⟨c, rest, rfl, hc⟩ := h
+  exact hc
+
+/-- a text of the grammar opens nothing -/
+theorem startsOpenerB_text {tx : Bytes} (h : textOKB tx = true) : startsOpenerB tx = false := by
+  match tx, h with
+  | [], _ => rfl
+  | [b], _ => (unfold startsOpenerB; split <;> simp_all)
+  | b :: c :: r, h =>
+    by_cases hb : b = 60
+    · subst hb
+      simp only [textOKB, Bool.and_eq_true, Bool.or_eq_true, bne_self_eq_false, Bool.false_eq_true, false_or,
+        Bool.not_eq_true'] at h
+      simpa [startsOpenerB] using h.1
+    · unfold startsOpenerB
+      split
+      · rename_i heq
+        simp only [List.cons.injEq] at heq
+        exact absurd heq.1 hb
+      · rfl
 
 theorem vtU_lossless : VtLossless vtU := by
   intro raw
@@ -49,9 +72,9 @@ theorem vtU_lossless : VtLossless vtU := by
   · simp [rawsOf]
   · exact rawsOf_textToks raw
 
-/-- a text node (syntactically: a verbatim piece without `<`) -/
+/-- a text node (syntactically: a verbatim piece that does not start with `<` + opener) -/
 def isTextB : Node → Bool
-  | .verb raw _ => !raw.contains 60
+  | .verb raw _ => !startsOpenerB raw
   | _ => false
 
 section
@@ -61,7 +84,7 @@ mutual
   /-- **the `Simple` grammar**: text = non-empty, free of `<`; comments / declarations, ordinary elements (normal, void,
   self-closing), raw-text elements under the side conditions of `L`; the node name is the lower-cased display name -/
   def SimpleN : Node → Prop
-    | .verb raw _ => (raw ≠ [] ∧ raw.contains 60 = false) ∨ L.OtherOK raw
+    | .verb raw _ => (raw ≠ [] ∧ textOKB raw = true) ∨ L.OtherOK raw
     | .el nm d a knd cs =>
       nm = lowerName d ∧
       (match knd with
@@ -85,9 +108,8 @@ def lastIsText : List Node → Bool
   | [n] => isTextB n
   | _ :: ns => lastIsText ns
 
-theorem other_contains {x : Bytes} (h : L.OtherOK x) : x.contains 60 = true := by
-  obtain ⟨c, rest, rfl, _⟩ := (L.other_closed x h).2
-  simp
+theorem other_opener {x : Bytes} (h : L.OtherOK x) : startsOpenerB x = true :=
+  startsOpenerB_of (L.other_closed x h).2
 
 section
 variable {P : Bytes → List Tok → Bytes → Prop} (hP : TokLaws P)
@@ -101,15 +123,11 @@ mutual
         (isTextB n = false → StartsOpener (serialize n))
     | .verb raw m, h, y, ts', r, hy, hop => by
       unfold SimpleN at h
-      rcases h with ⟨hne, h60⟩ | ho
-      · have h60' : ∀ b ∈ raw, b ≠ 60 := by
-          intro b hb e; subst e
-          have : raw.contains 60 = true := by simpa using hb
-          rw [h60] at this; cases this
-        have hemp : raw.isEmpty = false := by cases raw with
+      rcases h with ⟨hne, h60'⟩ | ho
+      · have hemp : raw.isEmpty = false := by cases raw with
           | nil => exact absurd rfl hne
           | cons _ _ => rfl
-        have hmem : 60 ∉ raw := fun hm => h60' 60 hm rfl
+        have hmem : startsOpenerB raw = false := startsOpenerB_text h60'
         refine ⟨?_, fun hv => by simp [isTextB, hmem] at hv⟩
         have htok : tokensOf vtU (Node.verb raw m) = [⟨.text, raw, []⟩] := by
           simp [tokensOf, vtU, hmem, textToks, hemp]
@@ -122,8 +140,7 @@ mutual
           obtain ⟨rfl, rfl⟩ := hP.nil_inv hy
           simpa using hP.text_eof hne h60'
       · obtain ⟨hc, hso⟩ := L.other_closed raw ho
-        have hcont := other_contains L ho
-        have hmem : 60 ∈ raw := by simpa using hcont
+        have hmem : startsOpenerB raw = true := other_opener L ho
         refine ⟨?_, fun _ => by simpa [serialize] using hso⟩
         have := hP.append hc hy
         have htok : tokensOf vtU (Node.verb raw m) = [⟨.other, raw, []⟩] := by
@@ -233,9 +250,14 @@ theorem splitHeld_of_last {ts : List Tok}
 
 def NotHeldTok (t : Tok) : Prop := ¬(t.kind = .text ∧ hasLt t.raw = true)
 
-/-- the last token of a node is a tag, a comment / declaration, or a text free of `<` (raw text, which may hold `<`, is
-always followed by its end tag) -/
-theorem lastTok_node (n : Node) : ∀ t, (tokensOf vtU n).getLast? = some t → NotHeldTok t := by
+/-- a top-level node after which `filter` holds nothing back: anything but a text holding `<` -/
+def NoLtText : Node → Prop
+  | .verb raw _ => startsOpenerB raw = true ∨ raw.contains 60 = false
+  | _ => True
+
+/-- the last token of such a node is a tag, a comment / declaration, or a text free of `<` (raw text, which may hold `<`,
+is always followed by its end tag) -/
+theorem lastTok_node (n : Node) (hn : NoLtText n) : ∀ t, (tokensOf vtU n).getLast? = some t → NotHeldTok t := by
   intro t ht
   cases n with
   | verb raw m =>
@@ -252,7 +274,9 @@ theorem lastTok_node (n : Node) : ∀ t, (tokensOf vtU n).getLast? = some t → 
         intro hh
         have := hh.2
         simp only [hasLt] at this
-        exact hc this
+        rcases hn with h | h
+        · exact hc h
+        · rw [h] at this; cases this
   | el nm d a knd cs =>
     cases knd with
     | raw =>
@@ -274,27 +298,37 @@ theorem lastTok_node (n : Node) : ∀ t, (tokensOf vtU n).getLast? = some t → 
       simp only [tokensOf, List.getLast?_singleton, Option.some.injEq] at ht
       subst ht; simp [NotHeldTok, selfTok]
 
-theorem lastTok_list : ∀ (ns : List Node) (t : Tok), (tokensOfList vtU ns).getLast? = some t → NotHeldTok t
-  | [], t, ht => by simp [tokensOfList] at ht
-  | n :: ns, t, ht => by
+theorem lastTok_list : ∀ (ns : List Node), (∀ n ∈ ns, NoLtText n) →
+    ∀ (t : Tok), (tokensOfList vtU ns).getLast? = some t → NotHeldTok t
+  | [], _, t, ht => by simp [tokensOfList] at ht
+  | n :: ns, h, t, ht => by
     simp only [tokensOfList, List.getLast?_append] at ht
     cases hl : (tokensOfList vtU ns).getLast? with
     | none =>
       rw [hl] at ht
       simp only [Option.none_or] at ht
-      exact lastTok_node n t ht
+      exact lastTok_node n (h n (by simp)) t ht
     | some t' =>
       rw [hl] at ht
       simp only [Option.some_or, Option.some.injEq] at ht
       subst ht
-      exact lastTok_list ns _ hl
+      exact lastTok_list ns (fun x hx => h x (List.mem_cons_of_mem _ hx)) _ hl
+
+/-- `filter` holds nothing back at the end of the document: the last token is not a text holding `<` (decidable; implied
+by `NoLtText` of the top-level nodes) -/
+def NoHeld (doc : List Node) : Prop := splitHeld (tokensOfList vtU doc) = (tokensOfList vtU doc, [])
+
+instance (doc : List Node) : Decidable (NoHeld doc) := by unfold NoHeld; infer_instance
+
+theorem noHeld_of_topTexts (doc : List Node) (h : ∀ n ∈ doc, NoLtText n) : NoHeld doc :=
+  splitHeld_of_last (lastTok_list doc h)
 
 /-- … hence the bridge hypothesis `TokAgree` of the token-level theorems (given valid UTF-8) -/
 theorem tokAgree_of_laws (doc : List Node) (hs : SimpleL L doc)
-    (hu : utf8Split (serializeList doc) = some (serializeList doc, [])) :
+    (hu : utf8Split (serializeList doc) = some (serializeList doc, [])) (hh : NoHeld doc) :
     TokAgree htmlTokenize vtU doc :=
   have h := streamTo_stream (stream_serialize_of_laws L doc hs)
-  ⟨h.1, h.2.1, h.2.2, hu, splitHeld_of_last (lastTok_list doc)⟩
+  ⟨h.1, h.2.1, h.2.2, hu, hh⟩
 
 end
 
@@ -303,15 +337,15 @@ end
 def StepsSimple (L : Laws) (ev : Bytes → Bytes → Bool) : List Node → List BodyFilter → Prop
   | _, [] => True
   | d, f :: fs =>
-    SimpleL L d ∧ utf8Split (serializeList d) = some (serializeList d, []) ∧ InDomain htmlTokenize vtU d f ∧
+    SimpleL L d ∧ utf8Split (serializeList d) = some (serializeList d, []) ∧ NoHeld d ∧ InDomain htmlTokenize vtU d f ∧
     (fs ≠ [] → serializeList (editD (decOf ev) d f) ≠ []) ∧ StepsSimple L ev (editD (decOf ev) d f) fs
 
 theorem stepsOK_of_simple (L : Laws) (ev : Bytes → Bytes → Bool) :
     ∀ (fs : List BodyFilter) (d : List Node), StepsSimple L ev d fs → StepsOK htmlTokenize ev vtU d fs
   | [], _, _ => trivial
   | f :: fs, d, h => by
-    obtain ⟨hs, hu, hd, hne, hrest⟩ := h
-    exact ⟨hd, tokAgree_of_laws L d hs hu, hne, stepsOK_of_simple L ev fs _ hrest⟩
+    obtain ⟨hs, hu, hh, hd, hne, hrest⟩ := h
+    exact ⟨hd, tokAgree_of_laws L d hs hu hh, hne, stepsOK_of_simple L ev fs _ hrest⟩
 
 /-! ### from facts about `next` on a fresh tokenizer to `Closed` -/
 
